@@ -322,6 +322,9 @@ def handle (s : St) (line : String) : St :=
               | some g => (hashes (pastOf implE upper)).contains g
               | none => true
             if !lowerOk then s else
+            -- both lower bounds at once is outside C15's quantifier ("inclusive or exclusive"): no range claim is
+            -- evaluated; model = implementation still is (`iter.out`), and `iter_range_gte_gt` says what both do
+            if o.gte.isSome && o.gt.isSome then s.count "cmp:iter.gte+gt" else
             let exp := hashes (iterSpec rep.log.sortFn implE upper o.gte o.gt o.amount)
             let got := s.hs (parseList outs)
             let amountNoLower := o.amount.isSome && o.gte.isNone && o.gt.isNone && (o.amount.getD 0) ≥ 0
